@@ -60,12 +60,13 @@ struct Outcome {
 }
 
 async fn frame_case(server: SocketAddr, max: u64, declared: u64) -> Outcome {
-    let class = format!("frame/max-{max}/declared-{}", if declared == max { "max".to_string() } else if declared == max + 1 { "max+1".into() } else { format!("{}x", declared / max) });
+    let class = format!("frame/max-{max}/declared-{}", if declared == max { "max".to_string() } else if declared == max + 1 { "max+1".into() } else { format!("max+{}", declared - max) });
     let end = match TcpEnd::connect(server, None).await {
         Ok(e) => e,
         Err(e) => return Outcome { class, signature: None, detail: json!({}), inconclusive: Some(format!("connect failed: {e}")) },
     };
-    end.send(&scripts::handshake(1, "limits.example.org", 25565, 770).frame());
+    // the handshake itself has to fit under a small maximum
+    end.send(&scripts::handshake(1, if max < 32 { "" } else { "limits.example.org" }, 25565, 770).frame());
     // a Status Request (id 0) padded to the declared frame length
     let mut w = W::new();
     w.varint(declared as i32);
@@ -98,8 +99,10 @@ async fn frame_case(server: SocketAddr, max: u64, declared: u64) -> Outcome {
     Outcome { class, signature, detail, inconclusive: None }
 }
 
-async fn cookie_case(server: SocketAddr, spec_secret: &str, expiry: u64, age: i64, own_secret: bool, seed: u64) -> Outcome {
-    let class = format!("cookie/expiry-{expiry}/age-{age}/{}", if own_secret { "configured-secret" } else { "other-secret" });
+/// `stall`: the client waits this long after connecting before it starts the login, so a cookie that
+/// was young enough when the connection opened is too old when it is presented.
+async fn cookie_case(server: SocketAddr, spec_secret: &str, expiry: u64, age: i64, own_secret: bool, seed: u64, stall: Duration) -> Outcome {
+    let class = format!("cookie/expiry-{expiry}/age-{age}{}/{}", if stall.is_zero() { String::new() } else { format!("+stall-{}s", stall.as_secs_f32()) }, if own_secret { "configured-secret" } else { "other-secret" });
     let end = match TcpEnd::connect(server, None).await {
         Ok(e) => e,
         Err(e) => return Outcome { class, signature: None, detail: json!({}), inconclusive: Some(format!("connect failed: {e}")) },
@@ -117,6 +120,7 @@ async fn cookie_case(server: SocketAddr, spec_secret: &str, expiry: u64, age: i6
     let payload = sign_cookie(&secret, &body);
     let mut plan = scripts::plan(
         vec![
+            Act::Sleep(stall),
             scripts::send("Handshake", scripts::handshake(3, "limits.example.org", 25565, 770)),
             scripts::send("LoginStart", Pkt::LoginStart { name: "Claimed".into(), uuid: 5 }),
             Act::AwaitPkt { name: "EncryptionRequest", nth: 1 },
@@ -125,12 +129,12 @@ async fn cookie_case(server: SocketAddr, spec_secret: &str, expiry: u64, age: i6
         ],
         false,
         [7u8; 16],
-        Duration::from_secs(6),
+        Duration::from_secs(6) + stall,
     );
     plan.cookies = vec![(AUTH_KEY.to_string(), Some(payload))];
     let log = Client::new(&end, plan).run().await;
     end.kill();
-    let expect_accept = own_secret && (age as i128) <= expiry as i128;
+    let expect_accept = own_secret && (age as i128 * 1000 + stall.as_millis() as i128) <= expiry as i128 * 1000;
     let detail = json!({"expiry": expiry, "age_s": age, "signed_with_configured_secret": own_secret, "should_authenticate": log.enc_request.as_ref().map(|e| e.2), "clientbound": log.names()});
     let signature = match log.enc_request.as_ref().map(|e| e.2) {
         None => Some((format!("cookie-connection-ended-early/{}", if expect_accept { "valid" } else { "invalid" }), "the connection ended before the Encryption Request".to_string())),
@@ -228,8 +232,11 @@ pub async fn run(cli: &Cli, report: &mut Report) {
     let specs: Vec<Spec> = {
         let mut v = vec![
             Spec { max_packet_length: 64, expiry: 5, timeout: 1, secret: "operator secret A".into() },
+            Spec { max_packet_length: 16, expiry: 60, timeout: 2, secret: "operator secret E".into() },
             Spec { max_packet_length: 400, expiry: 60, timeout: 2, secret: "operator secret B".into() },
             Spec { max_packet_length: 2000, expiry: 5, timeout: 3, secret: "s".into() },
+            // long deadline: room for clients that stall before presenting their cookie
+            Spec { max_packet_length: 1000, expiry: 5, timeout: 8, secret: "operator secret F".into() },
         ];
         if thorough {
             v.push(Spec { max_packet_length: 1000, expiry: 60, timeout: 18, secret: "operator secret C".into() });
@@ -246,7 +253,8 @@ pub async fn run(cli: &Cli, report: &mut Report) {
             return;
         }
         let m = spec.max_packet_length;
-        for declared in [m, m + 1, 10 * m] {
+        // max+1, a frame that still fits any small receive buffer, and a much larger one
+        for declared in [m, m + 1, m + 12, 10 * m] {
             futures.push(Box::pin(frame_case(addr, m, declared)));
         }
         let ages: Vec<i64> = if spec.expiry <= 5 { vec![0, 30, 3600] } else if spec.expiry <= 60 { vec![0, 30, 3600] } else { vec![0, 30, 7200] };
@@ -263,14 +271,26 @@ pub async fn run(cli: &Cli, report: &mut Report) {
                 seed = seed.wrapping_add(1);
                 let secret = spec.secret.clone();
                 let expiry = spec.expiry;
-                futures.push(Box::pin(async move { cookie_case(addr, &secret, expiry, age, own, seed).await }));
+                futures.push(Box::pin(async move { cookie_case(addr, &secret, expiry, age, own, seed, Duration::ZERO).await }));
+            }
+        }
+        if spec.expiry == 5 && spec.timeout >= 8 && spec.max_packet_length >= 400 {
+            // 2 s old at connect, presented 2.5 s later: 4.5 s < 5 s still valid; 1 s later: expired.
+            // (margins of 0.5 s and more on both sides of the wall-clock boundary are too tight on a
+            // loaded machine, so: valid = 1 s old + 1.5 s stall, expired = 4 s old + 2.5 s stall)
+            for (age, stall_ms) in [(1i64, 1500u64), (4, 2500)] {
+                seed = seed.wrapping_add(1);
+                let secret = spec.secret.clone();
+                let expiry = spec.expiry;
+                futures.push(Box::pin(async move { cookie_case(addr, &secret, expiry, age, true, seed, Duration::from_millis(stall_ms)).await }));
             }
         }
         let mut behaviours = vec![Behaviour::Silent, Behaviour::Drip, Behaviour::StatusNoPing];
         for k in 1..=5 {
             behaviours.push(Behaviour::StopAfter(k));
         }
-        let reps = if thorough { 4 } else { 1 };
+        // the long-deadline listener only measures close times in the thorough tier
+        let reps = if thorough { 4 } else if spec.timeout > 4 { 0 } else { 1 };
         for _ in 0..reps {
             for b in &behaviours {
                 futures.push(Box::pin(deadline_case(addr, spec.timeout, b.clone(), false)));
